@@ -94,6 +94,13 @@ def stepD (ds : DState) (toks : List String) : DState × String :=
     match Ty.ofTok ty with
     | none => (ds, "bad-op")
     | some t => let y := normSys (IstioModel.C03.step ds.sys (.sub t (decList nm))); ({ ds with sys := y }, showSys y)
+  | ["sub", ty, nm, flags] =>
+    -- C05: n = first delta request presents the retained nonce, e = legacy empty wildcard subscription
+    match Ty.ofTok ty with
+    | none => (ds, "bad-op")
+    | some t =>
+      let y := normSys (IstioModel.C03.step ds.sys (.subx t (decList nm) (flags.contains 'n') (flags.contains 'e')))
+      ({ ds with sys := y }, showSys y)
   | ["widx", ws] =>
     -- name:alias:onNode:ver,...  (sorted by name by the harness)
     let idx : Index := if ws == "-" then [] else (ws.splitOn ",").filterMap fun e =>
@@ -103,7 +110,9 @@ def stepD (ds : DState) (toks : List String) : DState × String :=
     ({ ds with widx := idx }, "ok")
   | ["wreq", sub, unsub, init, nk] =>
     -- `held`: a conformant (re)connecting client reports everything it holds
-    let retained := if init == "held" then sortHeld ds.wheld else []
+    -- `heldx`: ... with versions this server never produced (nothing may be skipped)
+    let retained := if init == "held" then sortHeld ds.wheld
+      else if init == "heldx" then (sortHeld ds.wheld).map (fun r => (r.1, r.2 + 1000000)) else []
     let r : DReq := { ty := .addr, sub := decList sub, unsub := decList unsub, init := names retained,
                       nonce := resolveNonce ds.wsrv.st .addr nk, err := none }
     match wdsProcess ds.widx ds.wsrv r retained with
